@@ -1,5 +1,5 @@
 // auto-generated: "lalrpop 0.23.1"
-// sha3: b7f2bbe2879987ce35d7057d0dca52b144a67f2819937272f97fea411f4ae72b
+// sha3: 96b6157214b259eeeafa03722472b95953ea7e6bb56724be2f61be5efa110e8a
 use crate::rt::*;
 #[allow(unused_extern_crates)]
 extern crate lalrpop_util as __lalrpop_util;
@@ -29,62 +29,61 @@ mod __parse__S {
     }
     const __ACTION: &[i8] = &[
         // State 0
-        5, 0, 0,
+        5, 0, 0, 0,
         // State 1
-        5, 0, 0,
+        0, 0, 6, -3,
         // State 2
-        0, 0, 2,
+        0, 0, 0, 8,
         // State 3
-        0, 6, 0,
+        0, 0, 0, 0,
         // State 4
-        7, -5, 0,
+        0, 2, 0, 0,
         // State 5
-        0, 0, -3,
+        0, 9, 0, 0,
         // State 6
-        0, -6, 0,
+        0, 0, 0, 0,
         // State 7
-        0, 9, 0,
+        0, 0, 0, 0,
         // State 8
-        0, 0, -4,
+        0, 0, 0, -4,
     ];
     fn __action(state: i8, integer: usize) -> i8 {
-        __ACTION[(state as usize) * 3 + integer]
+        __ACTION[(state as usize) * 4 + integer]
     }
     const __EOF_ACTION: &[i8] = &[
         // State 0
         0,
         // State 1
-        0,
+        -3,
         // State 2
-        -8,
+        -6,
         // State 3
-        0,
+        -8,
         // State 4
         0,
         // State 5
-        -3,
+        0,
         // State 6
-        0,
+        -5,
         // State 7
-        0,
+        -7,
         // State 8
         -4,
     ];
     fn __goto(state: i8, nt: usize) -> i8 {
         match nt {
             2 => 2,
-            3 => match state {
-                1 => 7,
-                _ => 3,
-            },
+            3 => 3,
+            4 => 6,
             _ => 0,
         }
     }
     #[allow(clippy::needless_raw_string_hashes)]
     const __TERMINAL: &[&str] = &[
-        r###""x""###,
-        r###""y""###,
-        r###""z""###,
+        r###""let""###,
+        r###""id""###,
+        r###""=""###,
+        r###"";""###,
     ];
     fn __expected_tokens(__state: i8) -> alloc::vec::Vec<alloc::string::String> {
         __TERMINAL.iter().enumerate().filter_map(|(index, terminal)| {
@@ -151,7 +150,7 @@ mod __parse__S {
 
         #[inline]
         fn error_action(&self, state: i8) -> i8 {
-            __action(state, 3 - 1)
+            __action(state, 4 - 1)
         }
 
         #[inline]
@@ -220,6 +219,7 @@ mod __parse__S {
             Tok('a', _, _, _) if true => Some(0),
             Tok('b', _, _, _) if true => Some(1),
             Tok('c', _, _, _) if true => Some(2),
+            Tok('d', _, _, _) if true => Some(3),
             _ => None,
         }
     }
@@ -231,7 +231,7 @@ mod __parse__S {
     ) -> __Symbol<>
     {
         #[allow(clippy::manual_range_patterns)]match __token_index {
-            0 | 1 | 2 => __Symbol::Variant0(__token),
+            0 | 1 | 2 | 3 => __Symbol::Variant0(__token),
             _ => unreachable!(),
         }
     }
@@ -256,26 +256,26 @@ mod __parse__S {
             }
             2 => {
                 __state_machine::SimulatedReduce::Reduce {
-                    states_to_pop: 2,
+                    states_to_pop: 0,
                     nonterminal_produced: 2,
                 }
             }
             3 => {
                 __state_machine::SimulatedReduce::Reduce {
-                    states_to_pop: 4,
+                    states_to_pop: 2,
                     nonterminal_produced: 2,
                 }
             }
             4 => {
                 __state_machine::SimulatedReduce::Reduce {
-                    states_to_pop: 1,
+                    states_to_pop: 4,
                     nonterminal_produced: 3,
                 }
             }
             5 => {
                 __state_machine::SimulatedReduce::Reduce {
-                    states_to_pop: 2,
-                    nonterminal_produced: 3,
+                    states_to_pop: 0,
+                    nonterminal_produced: 4,
                 }
             }
             6 => {
@@ -368,72 +368,19 @@ mod __parse__S {
                 __reduce1(__lookahead_start, __symbols, core::marker::PhantomData::<()>)
             }
             2 => {
-                // S = X, "y" => ActionFn(18);
-                assert!(__symbols.len() >= 2);
-                let __sym1 = __pop_Variant0(__symbols);
-                let __sym0 = __pop_Variant2(__symbols);
-                let __start = __sym0.0.clone();
-                let __end = __sym1.2.clone();
-                let __nt = match super::__action18::<>(__sym0, __sym1) {
-                    Ok(v) => v,
-                    Err(e) => return Some(Err(e)),
-                };
-                __symbols.push((__start, __Symbol::Variant2(__nt), __end));
-                (2, 2)
+                __reduce2(__lookahead_start, __symbols, core::marker::PhantomData::<()>)
             }
             3 => {
-                // S = S, "z", X, "y" => ActionFn(19);
-                assert!(__symbols.len() >= 4);
-                let __sym3 = __pop_Variant0(__symbols);
-                let __sym2 = __pop_Variant2(__symbols);
-                let __sym1 = __pop_Variant0(__symbols);
-                let __sym0 = __pop_Variant2(__symbols);
-                let __start = __sym0.0.clone();
-                let __end = __sym3.2.clone();
-                let __nt = match super::__action19::<>(__sym0, __sym1, __sym2, __sym3) {
-                    Ok(v) => v,
-                    Err(e) => return Some(Err(e)),
-                };
-                __symbols.push((__start, __Symbol::Variant2(__nt), __end));
-                (4, 2)
+                __reduce3(__lookahead_start, __symbols, core::marker::PhantomData::<()>)
             }
             4 => {
-                // X = "x" => ActionFn(15);
-                let __sym0 = __pop_Variant0(__symbols);
-                let __start = __sym0.0.clone();
-                let __end = __sym0.2.clone();
-                let __nt = match super::__action15::<>(__sym0) {
-                    Ok(v) => v,
-                    Err(e) => return Some(Err(e)),
-                };
-                __symbols.push((__start, __Symbol::Variant2(__nt), __end));
-                (1, 3)
+                __reduce4(__lookahead_start, __symbols, core::marker::PhantomData::<()>)
             }
             5 => {
-                // X = "x", "x" => ActionFn(16);
-                assert!(__symbols.len() >= 2);
-                let __sym1 = __pop_Variant0(__symbols);
-                let __sym0 = __pop_Variant0(__symbols);
-                let __start = __sym0.0.clone();
-                let __end = __sym1.2.clone();
-                let __nt = match super::__action16::<>(__sym0, __sym1) {
-                    Ok(v) => v,
-                    Err(e) => return Some(Err(e)),
-                };
-                __symbols.push((__start, __Symbol::Variant2(__nt), __end));
-                (2, 3)
+                __reduce5(__lookahead_start, __symbols, core::marker::PhantomData::<()>)
             }
             6 => {
-                // Y = "y" => ActionFn(17);
-                let __sym0 = __pop_Variant0(__symbols);
-                let __start = __sym0.0.clone();
-                let __end = __sym0.2.clone();
-                let __nt = match super::__action17::<>(__sym0) {
-                    Ok(v) => v,
-                    Err(e) => return Some(Err(e)),
-                };
-                __symbols.push((__start, __Symbol::Variant2(__nt), __end));
-                (1, 4)
+                __reduce6(__lookahead_start, __symbols, core::marker::PhantomData::<()>)
             }
             7 => {
                 // __S = S => ActionFn(0);
@@ -514,6 +461,85 @@ mod __parse__S {
         __symbols.push((__start, __Symbol::Variant1(__nt), __end));
         (0, 1)
     }
+    fn __reduce2<
+    >(
+        __lookahead_start: Option<&i64>,
+        __symbols: &mut alloc::vec::Vec<(i64,__Symbol<>,i64)>,
+        _: core::marker::PhantomData<()>,
+    ) -> (usize, usize)
+    {
+        // Init =  => ActionFn(13);
+        let __start = __lookahead_start.cloned().or_else(|| __symbols.last().map(|s| s.2.clone())).unwrap_or_default();
+        let __end = __start.clone();
+        let __nt = super::__action13::<>(&__start, &__end);
+        __symbols.push((__start, __Symbol::Variant2(__nt), __end));
+        (0, 2)
+    }
+    fn __reduce3<
+    >(
+        __lookahead_start: Option<&i64>,
+        __symbols: &mut alloc::vec::Vec<(i64,__Symbol<>,i64)>,
+        _: core::marker::PhantomData<()>,
+    ) -> (usize, usize)
+    {
+        // Init = "=", "id" => ActionFn(14);
+        assert!(__symbols.len() >= 2);
+        let __sym1 = __pop_Variant0(__symbols);
+        let __sym0 = __pop_Variant0(__symbols);
+        let __start = __sym0.0.clone();
+        let __end = __sym1.2.clone();
+        let __nt = super::__action14::<>(__sym0, __sym1);
+        __symbols.push((__start, __Symbol::Variant2(__nt), __end));
+        (2, 2)
+    }
+    fn __reduce4<
+    >(
+        __lookahead_start: Option<&i64>,
+        __symbols: &mut alloc::vec::Vec<(i64,__Symbol<>,i64)>,
+        _: core::marker::PhantomData<()>,
+    ) -> (usize, usize)
+    {
+        // S = "let", "id", Init, Semi => ActionFn(15);
+        assert!(__symbols.len() >= 4);
+        let __sym3 = __pop_Variant2(__symbols);
+        let __sym2 = __pop_Variant2(__symbols);
+        let __sym1 = __pop_Variant0(__symbols);
+        let __sym0 = __pop_Variant0(__symbols);
+        let __start = __sym0.0.clone();
+        let __end = __sym3.2.clone();
+        let __nt = super::__action15::<>(__sym0, __sym1, __sym2, __sym3);
+        __symbols.push((__start, __Symbol::Variant2(__nt), __end));
+        (4, 3)
+    }
+    fn __reduce5<
+    >(
+        __lookahead_start: Option<&i64>,
+        __symbols: &mut alloc::vec::Vec<(i64,__Symbol<>,i64)>,
+        _: core::marker::PhantomData<()>,
+    ) -> (usize, usize)
+    {
+        // Semi =  => ActionFn(16);
+        let __start = __lookahead_start.cloned().or_else(|| __symbols.last().map(|s| s.2.clone())).unwrap_or_default();
+        let __end = __start.clone();
+        let __nt = super::__action16::<>(&__start, &__end);
+        __symbols.push((__start, __Symbol::Variant2(__nt), __end));
+        (0, 4)
+    }
+    fn __reduce6<
+    >(
+        __lookahead_start: Option<&i64>,
+        __symbols: &mut alloc::vec::Vec<(i64,__Symbol<>,i64)>,
+        _: core::marker::PhantomData<()>,
+    ) -> (usize, usize)
+    {
+        // Semi = ";" => ActionFn(17);
+        let __sym0 = __pop_Variant0(__symbols);
+        let __start = __sym0.0.clone();
+        let __end = __sym0.2.clone();
+        let __nt = super::__action17::<>(__sym0);
+        __symbols.push((__start, __Symbol::Variant2(__nt), __end));
+        (1, 4)
+    }
 }
 #[allow(unused_imports)]
 pub use self::__parse__S::SParser;
@@ -531,49 +557,50 @@ fn __action0<
 fn __action1<
 >(
     (_, l, _): (i64, i64, i64),
-    (_, c0, _): (i64, Tree, i64),
-    (_, c1, _): (i64, Tree, i64),
+    (_, c0, _): (i64, Tok, i64),
+    (_, c1, _): (i64, Tok, i64),
+    (_, pL2, _): (i64, i64, i64),
+    (_, c2, _): (i64, Tree, i64),
+    (_, c3, _): (i64, Tree, i64),
     (_, r, _): (i64, i64, i64),
 ) -> Tree
 {
-    node("S#0", l, r, vec![Tree::from(c0), Tree::from(c1)])
+    { probe("S#0", 2, 'L', pL2); node("S#0", l, r, vec![Tree::from(c0), Tree::from(c1), Tree::from(c2), Tree::from(c3)]) }
 }
 
 #[allow(clippy::too_many_arguments, clippy::needless_lifetimes, clippy::just_underscores_and_digits, clippy::extra_unused_type_parameters)]
 fn __action2<
 >(
     (_, l, _): (i64, i64, i64),
-    (_, c0, _): (i64, Tree, i64),
-    (_, c1, _): (i64, Tok, i64),
-    (_, c2, _): (i64, Tree, i64),
-    (_, c3, _): (i64, Tree, i64),
+    (_, pL0, _): (i64, i64, i64),
     (_, r, _): (i64, i64, i64),
 ) -> Tree
 {
-    node("S#1", l, r, vec![Tree::from(c0), Tree::from(c1), Tree::from(c2), Tree::from(c3)])
+    { probe("Init#0", 0, 'L', pL0); node("Init#0", l, r, vec![]) }
 }
 
 #[allow(clippy::too_many_arguments, clippy::needless_lifetimes, clippy::just_underscores_and_digits, clippy::extra_unused_type_parameters)]
 fn __action3<
 >(
     (_, l, _): (i64, i64, i64),
+    (_, pR0, _): (i64, i64, i64),
     (_, c0, _): (i64, Tok, i64),
+    (_, c1, _): (i64, Tok, i64),
     (_, r, _): (i64, i64, i64),
-) -> Result<Tree,__lalrpop_util::ParseError<i64,Tok,u64>>
+) -> Tree
 {
-    fallible("X#0", l, r, vec![Tree::from(c0)])
+    { probe("Init#1", 0, 'R', pR0); node("Init#1", l, r, vec![Tree::from(c0), Tree::from(c1)]) }
 }
 
 #[allow(clippy::too_many_arguments, clippy::needless_lifetimes, clippy::just_underscores_and_digits, clippy::extra_unused_type_parameters)]
 fn __action4<
 >(
     (_, l, _): (i64, i64, i64),
-    (_, c0, _): (i64, Tok, i64),
-    (_, c1, _): (i64, Tok, i64),
+    (_, pR0, _): (i64, i64, i64),
     (_, r, _): (i64, i64, i64),
-) -> Result<Tree,__lalrpop_util::ParseError<i64,Tok,u64>>
+) -> Tree
 {
-    fallible("X#1", l, r, vec![Tree::from(c0), Tree::from(c1)])
+    { probe("Semi#0", 0, 'R', pR0); node("Semi#0", l, r, vec![]) }
 }
 
 #[allow(clippy::too_many_arguments, clippy::needless_lifetimes, clippy::just_underscores_and_digits, clippy::extra_unused_type_parameters)]
@@ -582,9 +609,9 @@ fn __action5<
     (_, l, _): (i64, i64, i64),
     (_, c0, _): (i64, Tok, i64),
     (_, r, _): (i64, i64, i64),
-) -> Result<Tree,__lalrpop_util::ParseError<i64,Tok,u64>>
+) -> Tree
 {
-    fallible("Y#0", l, r, vec![Tree::from(c0)])
+    node("Semi#1", l, r, vec![Tree::from(c0)])
 }
 
 #[allow(clippy::needless_lifetimes, clippy::clone_on_copy)]
@@ -611,23 +638,27 @@ fn __action7<
     clippy::just_underscores_and_digits, clippy::clone_on_copy, clippy::unit_arg)]
 fn __action8<
 >(
-    __0: (i64, Tree, i64),
-    __1: (i64, Tree, i64),
-    __2: (i64, i64, i64),
+    __0: (i64, i64, i64),
 ) -> Tree
 {
     let __start0 = __0.0.clone();
     let __end0 = __0.0.clone();
+    let __start1 = __0.0.clone();
+    let __end1 = __0.0.clone();
     let __temp0 = __action7(
         &__start0,
         &__end0,
     );
     let __temp0 = (__start0, __temp0, __end0);
-    __action1(
+    let __temp1 = __action7(
+        &__start1,
+        &__end1,
+    );
+    let __temp1 = (__start1, __temp1, __end1);
+    __action2(
         __temp0,
+        __temp1,
         __0,
-        __1,
-        __2,
     )
 }
 
@@ -635,37 +666,11 @@ fn __action8<
     clippy::just_underscores_and_digits, clippy::clone_on_copy, clippy::unit_arg)]
 fn __action9<
 >(
-    __0: (i64, Tree, i64),
+    __0: (i64, i64, i64),
     __1: (i64, Tok, i64),
-    __2: (i64, Tree, i64),
-    __3: (i64, Tree, i64),
-    __4: (i64, i64, i64),
+    __2: (i64, Tok, i64),
+    __3: (i64, i64, i64),
 ) -> Tree
-{
-    let __start0 = __0.0.clone();
-    let __end0 = __0.0.clone();
-    let __temp0 = __action7(
-        &__start0,
-        &__end0,
-    );
-    let __temp0 = (__start0, __temp0, __end0);
-    __action2(
-        __temp0,
-        __0,
-        __1,
-        __2,
-        __3,
-        __4,
-    )
-}
-
-#[allow(clippy::too_many_arguments, clippy::needless_lifetimes,
-    clippy::just_underscores_and_digits, clippy::clone_on_copy, clippy::unit_arg)]
-fn __action10<
->(
-    __0: (i64, Tok, i64),
-    __1: (i64, i64, i64),
-) -> Result<Tree,__lalrpop_util::ParseError<i64,Tok,u64>>
 {
     let __start0 = __0.0.clone();
     let __end0 = __0.0.clone();
@@ -678,6 +683,44 @@ fn __action10<
         __temp0,
         __0,
         __1,
+        __2,
+        __3,
+    )
+}
+
+#[allow(clippy::too_many_arguments, clippy::needless_lifetimes,
+    clippy::just_underscores_and_digits, clippy::clone_on_copy, clippy::unit_arg)]
+fn __action10<
+>(
+    __0: (i64, Tok, i64),
+    __1: (i64, Tok, i64),
+    __2: (i64, Tree, i64),
+    __3: (i64, Tree, i64),
+    __4: (i64, i64, i64),
+) -> Tree
+{
+    let __start0 = __0.0.clone();
+    let __end0 = __0.0.clone();
+    let __start1 = __1.2.clone();
+    let __end1 = __2.0.clone();
+    let __temp0 = __action7(
+        &__start0,
+        &__end0,
+    );
+    let __temp0 = (__start0, __temp0, __end0);
+    let __temp1 = __action7(
+        &__start1,
+        &__end1,
+    );
+    let __temp1 = (__start1, __temp1, __end1);
+    __action1(
+        __temp0,
+        __0,
+        __1,
+        __temp1,
+        __2,
+        __3,
+        __4,
     )
 }
 
@@ -685,10 +728,9 @@ fn __action10<
     clippy::just_underscores_and_digits, clippy::clone_on_copy, clippy::unit_arg)]
 fn __action11<
 >(
-    __0: (i64, Tok, i64),
-    __1: (i64, Tok, i64),
-    __2: (i64, i64, i64),
-) -> Result<Tree,__lalrpop_util::ParseError<i64,Tok,u64>>
+    __0: (i64, i64, i64),
+    __1: (i64, i64, i64),
+) -> Tree
 {
     let __start0 = __0.0.clone();
     let __end0 = __0.0.clone();
@@ -701,7 +743,6 @@ fn __action11<
         __temp0,
         __0,
         __1,
-        __2,
     )
 }
 
@@ -711,7 +752,7 @@ fn __action12<
 >(
     __0: (i64, Tok, i64),
     __1: (i64, i64, i64),
-) -> Result<Tree,__lalrpop_util::ParseError<i64,Tok,u64>>
+) -> Tree
 {
     let __start0 = __0.0.clone();
     let __end0 = __0.0.clone();
@@ -731,20 +772,18 @@ fn __action12<
     clippy::just_underscores_and_digits, clippy::clone_on_copy, clippy::unit_arg)]
 fn __action13<
 >(
-    __0: (i64, Tree, i64),
-    __1: (i64, Tree, i64),
+    __lookbehind: &i64,
+    __lookahead: &i64,
 ) -> Tree
 {
-    let __start0 = __1.2.clone();
-    let __end0 = __1.2.clone();
+    let __start0 = __lookbehind.clone();
+    let __end0 = __lookahead.clone();
     let __temp0 = __action6(
         &__start0,
         &__end0,
     );
     let __temp0 = (__start0, __temp0, __end0);
     __action8(
-        __0,
-        __1,
         __temp0,
     )
 }
@@ -753,7 +792,37 @@ fn __action13<
     clippy::just_underscores_and_digits, clippy::clone_on_copy, clippy::unit_arg)]
 fn __action14<
 >(
-    __0: (i64, Tree, i64),
+    __0: (i64, Tok, i64),
+    __1: (i64, Tok, i64),
+) -> Tree
+{
+    let __start0 = __0.0.clone();
+    let __end0 = __0.0.clone();
+    let __start1 = __1.2.clone();
+    let __end1 = __1.2.clone();
+    let __temp0 = __action6(
+        &__start0,
+        &__end0,
+    );
+    let __temp0 = (__start0, __temp0, __end0);
+    let __temp1 = __action6(
+        &__start1,
+        &__end1,
+    );
+    let __temp1 = (__start1, __temp1, __end1);
+    __action9(
+        __temp0,
+        __0,
+        __1,
+        __temp1,
+    )
+}
+
+#[allow(clippy::too_many_arguments, clippy::needless_lifetimes,
+    clippy::just_underscores_and_digits, clippy::clone_on_copy, clippy::unit_arg)]
+fn __action15<
+>(
+    __0: (i64, Tok, i64),
     __1: (i64, Tok, i64),
     __2: (i64, Tree, i64),
     __3: (i64, Tree, i64),
@@ -766,7 +835,7 @@ fn __action14<
         &__end0,
     );
     let __temp0 = (__start0, __temp0, __end0);
-    __action9(
+    __action10(
         __0,
         __1,
         __2,
@@ -777,43 +846,29 @@ fn __action14<
 
 #[allow(clippy::too_many_arguments, clippy::needless_lifetimes,
     clippy::just_underscores_and_digits, clippy::clone_on_copy, clippy::unit_arg)]
-fn __action15<
->(
-    __0: (i64, Tok, i64),
-) -> Result<Tree,__lalrpop_util::ParseError<i64,Tok,u64>>
-{
-    let __start0 = __0.2.clone();
-    let __end0 = __0.2.clone();
-    let __temp0 = __action6(
-        &__start0,
-        &__end0,
-    );
-    let __temp0 = (__start0, __temp0, __end0);
-    __action10(
-        __0,
-        __temp0,
-    )
-}
-
-#[allow(clippy::too_many_arguments, clippy::needless_lifetimes,
-    clippy::just_underscores_and_digits, clippy::clone_on_copy, clippy::unit_arg)]
 fn __action16<
 >(
-    __0: (i64, Tok, i64),
-    __1: (i64, Tok, i64),
-) -> Result<Tree,__lalrpop_util::ParseError<i64,Tok,u64>>
+    __lookbehind: &i64,
+    __lookahead: &i64,
+) -> Tree
 {
-    let __start0 = __1.2.clone();
-    let __end0 = __1.2.clone();
+    let __start0 = __lookbehind.clone();
+    let __end0 = __lookahead.clone();
+    let __start1 = __lookbehind.clone();
+    let __end1 = __lookahead.clone();
     let __temp0 = __action6(
         &__start0,
         &__end0,
     );
     let __temp0 = (__start0, __temp0, __end0);
+    let __temp1 = __action6(
+        &__start1,
+        &__end1,
+    );
+    let __temp1 = (__start1, __temp1, __end1);
     __action11(
-        __0,
-        __1,
         __temp0,
+        __temp1,
     )
 }
 
@@ -822,7 +877,7 @@ fn __action16<
 fn __action17<
 >(
     __0: (i64, Tok, i64),
-) -> Result<Tree,__lalrpop_util::ParseError<i64,Tok,u64>>
+) -> Tree
 {
     let __start0 = __0.2.clone();
     let __end0 = __0.2.clone();
@@ -835,50 +890,6 @@ fn __action17<
         __0,
         __temp0,
     )
-}
-
-#[allow(clippy::too_many_arguments, clippy::needless_lifetimes,
-    clippy::just_underscores_and_digits, clippy::clone_on_copy, clippy::unit_arg)]
-fn __action18<
->(
-    __0: (i64, Tree, i64),
-    __1: (i64, Tok, i64),
-) -> Result<Tree,__lalrpop_util::ParseError<i64,Tok,u64>>
-{
-    let __start0 = __1.0.clone();
-    let __end0 = __1.2.clone();
-    let __temp0 = __action17(
-        __1,
-    )?;
-    let __temp0 = (__start0, __temp0, __end0);
-    Ok(__action13(
-        __0,
-        __temp0,
-    ))
-}
-
-#[allow(clippy::too_many_arguments, clippy::needless_lifetimes,
-    clippy::just_underscores_and_digits, clippy::clone_on_copy, clippy::unit_arg)]
-fn __action19<
->(
-    __0: (i64, Tree, i64),
-    __1: (i64, Tok, i64),
-    __2: (i64, Tree, i64),
-    __3: (i64, Tok, i64),
-) -> Result<Tree,__lalrpop_util::ParseError<i64,Tok,u64>>
-{
-    let __start0 = __3.0.clone();
-    let __end0 = __3.2.clone();
-    let __temp0 = __action17(
-        __3,
-    )?;
-    let __temp0 = (__start0, __temp0, __end0);
-    Ok(__action14(
-        __0,
-        __1,
-        __2,
-        __temp0,
-    ))
 }
 
 #[allow(clippy::type_complexity, dead_code)]
